@@ -21,6 +21,10 @@ func VerifC08_FwQuiescence() {
 			r.th.pitCS.Update()
 		}
 	}
+	verifC08Quiesce(r)
+}
+
+func verifC08Quiesce(r *verifRig) {
 	// quiescence: every lifetime (<= 4 s) has elapsed; the reaper runs (several times, as its ticker would)
 	for i := 0; i < 3; i++ {
 		verifAdvance(int64(5 * time.Second))
@@ -37,3 +41,10 @@ func VerifC08_FwQuiescence() {
 		}
 	}
 }
+
+// longer histories as fixed shapes (I Interest, D Data, A clock advance + sweep), then quiescence:
+// re-expression after expiry (same or different nonce), after satisfaction, aggregation then expiry
+func VerifC08_Script_IAI()  { verifC08Quiesce(verifFwScript("C08", false, []string{"IAI"})) }
+func VerifC08_Script_IDI()  { verifC08Quiesce(verifFwScript("C08", false, []string{"IDI"})) }
+func VerifC08_Script_IIAI() { verifC08Quiesce(verifFwScript("C08", false, []string{"IIAI"})) }
+func VerifC08_Script_IDAI() { verifC08Quiesce(verifFwScript("C08", false, []string{"IDAI"})) }
